@@ -7,7 +7,9 @@
 #                                     calloc realloc rand srand); every other undefined igc_X (__errno_location,
 #                                     __stack_chk_fail, __tsan_*, _Unwind_Resume, a libc function the repository does
 #                                     not implement, ...) is mapped back to the host's X.
-# $IGC_CFLAGS / $IGC_OPT: extra compiler flags / optimisation level (sanitizer build).
+# $IGC_CFLAGS / $IGC_OPT / $IGC_CC: extra compiler flags / optimisation level / compiler (sanitizer and variant builds).
+# $IGC_MODE: defaults to "-fno-builtin -fno-tree-loop-distribute-patterns"; set it to "" for the project-like build
+# (the repository's make.py passes neither; symbol renaming happens after compilation, so gcc sees the real names).
 IGC_HARNESS="${IGC_HARNESS:-malloc free calloc realloc rand srand}"
 igc_shim() { # $1 = dir
     mkdir -p "$1"
@@ -15,8 +17,10 @@ igc_shim() { # $1 = dir
     printf '#include_next <errno.h>\n#include <igris/util/errno.h>\n' > "$1/errno.h"
 }
 igc_one() { # $1 = shim dir, $2 = out.o, $3 = src.c
-    gcc -c ${IGC_OPT:--O2} -g -w -fno-builtin -fno-tree-loop-distribute-patterns -fstack-protector-strong -fexceptions $IGC_CFLAGS \
-        -U_FORTIFY_SOURCE -D_GNU_SOURCE -D'__weak_alias(a,b)=' -isystem "$1" -I"$REPO" "$3" -o "$2" || return 1
+    # -D__NO_INLINE__: the host's <stdlib.h>/<string.h> then only DECLARE (glibc otherwise defines atol() & co. as extern
+    # inlines that call strtol - a repository strtol calling the repository's atol would recurse into itself)
+    ${IGC_CC:-gcc} -c ${IGC_OPT:--O2} -g -w ${IGC_MODE--fno-builtin -fno-tree-loop-distribute-patterns} -fstack-protector-strong -fexceptions $IGC_CFLAGS \
+        -U_FORTIFY_SOURCE -D_GNU_SOURCE -D__NO_INLINE__ -D'__weak_alias(a,b)=' -isystem "$1" -I"$REPO" "$3" -o "$2" || return 1
     objcopy --prefix-symbols=igc_ "$2"
 }
 igc_resolve() { # objects of one executable
